@@ -375,3 +375,47 @@ fn compress_literals(
         None
     }
 }
+
+/// Pass-through wrappers for the verification harness.
+#[cfg(feature = "verif_hooks")]
+pub mod verif {
+    use super::*;
+
+    pub fn encode_literal_length(len: u32) -> (u8, u32, usize) {
+        super::encode_literal_length(len)
+    }
+
+    pub fn encode_match_len(len: u32) -> (u8, u32, usize) {
+        super::encode_match_len(len)
+    }
+
+    pub fn encode_offset(len: u32) -> (u8, u32, usize) {
+        super::encode_offset(len)
+    }
+
+    pub fn encode_seqnum(seqnum: usize) -> Vec<u8> {
+        let mut writer = BitWriter::new();
+        super::encode_seqnum(seqnum, &mut writer);
+        writer.dump()
+    }
+
+    pub fn raw_literals(literals: &[u8]) -> Vec<u8> {
+        let mut out = Vec::new();
+        let mut writer = BitWriter::from(&mut out);
+        super::raw_literals(literals, &mut writer);
+        writer.flush();
+        out
+    }
+
+    /// Returns the literals section and the new table if one was emitted
+    pub fn compress_literals(
+        literals: &[u8],
+        last_table: Option<&huff0_encoder::HuffmanTable>,
+    ) -> (Vec<u8>, Option<huff0_encoder::HuffmanTable>) {
+        let mut out = Vec::new();
+        let mut writer = BitWriter::from(&mut out);
+        let table = super::compress_literals(literals, last_table, &mut writer);
+        writer.flush();
+        (out, table)
+    }
+}
